@@ -15,7 +15,7 @@ def build_mitref():
     if os.path.exists(exe) and os.path.getmtime(exe) >= os.path.getmtime(src):
         return exe
     os.makedirs(vlib.BUILD, exist_ok=True)
-    r = subprocess.run(["gcc", "-O1", "-o", exe, src, "-lkrb5", "-lk5crypto"], capture_output=True, text=True)
+    r = subprocess.run(["gcc", "-O1", "-o", exe, src, "-lgssapi_krb5", "-lkrb5", "-lk5crypto"], capture_output=True, text=True)
     if r.returncode != 0:
         return None
     return exe
@@ -286,6 +286,35 @@ def mit_reply_cross(wd):
         shutil.rmtree(d, ignore_errors=True)
     return {"available": True, "exchanges": len(lines), "accepted_by_mit": sum(1 for x in lines if x["mitStage"] == 7), "disagreements": len(bad),
             "first": [{k: lines[i - 1][k] for k in ("kind", "et", "devs", "mitStage", "mitMsg")} for i in bad[:5]]}
+
+
+def mit_gss_interop(wd, seed):
+    """GSS-API per-message tokens of MIT against gokrb5 and the other way round (vh mitgss, TraceMITGSS).  Returns (statistics,
+    rejected lines); a rejected line whose context was not established concerns the environment, the others concern gokrb5."""
+    exe = build_mitref()
+    if exe is None:
+        return {"available": False}, []
+    d = os.path.join(wd, "mitgss")
+    os.makedirs(d, exist_ok=True)
+    trace = os.path.join(wd, "trace.ndjson")
+    keep = None
+    if os.path.exists(trace):
+        keep = trace + ".keep4"
+        os.rename(trace, keep)
+    try:
+        vlib.run_harness(["mitgss", "-out", trace, "-mitref", exe, "-dir", d, "-seed", str(seed)], timeout=900)
+        lines = vlib.read_ndjson(trace)
+        res = vlib.tlc_or_die(wd, "TraceMITGSS", timeout=600)
+        bad = sorted(int(v) for v in res.tags("BADLINE"))
+        if res.distinct != len(lines) + 1:
+            raise vlib.Inconclusive("TraceMITGSS: TLC visited %d states, expected %d" % (res.distinct, len(lines) + 1))
+    finally:
+        if keep:
+            os.replace(keep, trace)
+        shutil.rmtree(d, ignore_errors=True)
+    return ({"available": True, "contexts": len(lines), "established": sum(1 for x in lines if x["mitStage"] == 6),
+             "mit_tokens_verified_by_gokrb5": 4 * sum(1 for x in lines if x["mitStage"] == 6), "gokrb5_tokens_verified_by_mit": 4 * sum(1 for x in lines if x["mitStage"] == 6),
+             "rejected_lines": len(bad)}, [lines[i - 1] for i in bad])
 
 
 PAC_NOT_COMPARABLE = {
